@@ -32,6 +32,18 @@ C (spec on impl, the property statement, judged on the implementation alone):
         ended at a read boundary) and whose header block is plain (printable ASCII, no escapes, no folding,
         token names) are judged; values Python's int() takes (sign, `1_0`) and repeated identical values are
         not judged (documented leniency).
+  (vi)  the same for chunked framing (`strict_chunks`, RFC 7230 4.1: chunk-size = 1*HEXDIG, read off the delivered
+        bytes; neither the model nor the implementation's lexer takes part): a request with `Transfer-Encoding:
+        chunked` (one field, no Content-Length) in which, after strictly framed chunks, a chunk-size line arrives that
+        is no number at all (`zz`, empty, `1g`, `-`, `0x`, `3_`, `1 2`) or a negative number (`-1`, `-ff;ext`, ` -5`) is
+        not dispatched and not answered 2xx - `malformed-dispatched(chunk-size)` - neither in the read that completes
+        that line nor in a later one, and the bytes that follow it produce no request event / response of their own -
+        `body-parsed-as-request`.  Not judged (leniency of the unchanged code, counted in the histogram
+        `framing_oracle`): lines that Python's int(x, 16) reads as a number >= 0 although they are not 1*HEXDIG
+        (`+3`, ` 3`, `3 `, `0x3`, `1_0`, `-0`: the code carries on with that number), and a negative size from the moment a
+        `0` digit has arrived after it (the unchanged code slices the buffer from its end with a negative size and may
+        then reach what it reads as a last-chunk; before any zero digit has arrived no reading of the bytes contains a
+        last-chunk, and the unchanged code waits).
 B (correspondence): CV.Http14.step (machine `http14`) on the same script, lexers and their Python
 exceptions instantiated by the implementation's own leaf functions evaluated separately on the
 candidate byte strings: outcome kind, exit, status, request seen by the handler, table membership
@@ -274,6 +286,7 @@ def strict_head(buf):
     -> ('more',)                          no complete header block yet
        ('unknown', why)
        ('ok', head_len, body_len)         no Content-Length (0) or one decimal value
+       ('chunked', head_len)              Transfer-Encoding: chunked (alone, no Content-Length) -> strict_chunks
        ('badcl', head_len, kind, values)  kind = non-decimal | conflicting
     """
     j = buf.find(CRLF2)
@@ -288,16 +301,24 @@ def strict_head(buf):
             return ('unknown', 'control or high byte')
         if b'\\' in ln:
             return ('unknown', 'backslash (the parser un-escapes)')
-    clens = []
+    clens, tes, coded = [], [], False
     for ln in lines[1:]:
         name, colon, value = ln.partition(b':')
         if not colon or not TOKEN_RE.match(name):
             return ('unknown', 'header line is not token ":" value')
         lname = name.lower()
         if lname == b'transfer-encoding':
-            return ('unknown', 'Transfer-Encoding present (3.3.3 (3) applies)')
+            tes.append(value.strip(b' \t'))
+        if lname == b'content-encoding':
+            coded = True
         if lname == b'content-length':
             clens.append(value.strip(b' \t'))
+    if tes:
+        if clens:
+            return ('unknown', 'Transfer-Encoding with Content-Length (3.3.3 (3) applies)')
+        if len(tes) > 1 or tes[0].lower() != b'chunked' or coded:
+            return ('unknown', 'Transfer-Encoding is not the single coding "chunked" / Content-Encoding present')
+        return ('chunked', j + 4)
     if not clens:
         return ('ok', j + 4, 0)
     members = [m.strip(b' \t') for v in clens for m in v.split(b',')]
@@ -312,10 +333,110 @@ def strict_head(buf):
     return ('badcl', j + 4, 'non-decimal', clens)
 
 
+HEX_RE = re.compile(rb'^[0-9A-Fa-f]+$')
+HEXBWS_RE = re.compile(rb'^[0-9A-Fa-f]+[ \t]*$')          # BWS before ";" (RFC 7230 erratum 4667 / RFC 9112 7.1.1)
+PYWS = b' \t\n\r\x0b\x0c'
+# the ASCII strings Python's int(x, 16) takes, written down from the language reference (2.4.5 + int()): optional
+# whitespace, sign, 0x prefix, hex digits with single underscores between them (also directly after the prefix)
+PYHEX_RE = re.compile(rb'^[ \t\n\r\x0b\x0c]*([+-]?)(0[xX]_?)?([0-9A-Fa-f]+(?:_[0-9A-Fa-f]+)*)[ \t\n\r\x0b\x0c]*$')
+
+
+def pyhex_value(size):
+    """the number Python's int(size, 16) returns for an ASCII byte string, None where it raises ValueError"""
+    m = PYHEX_RE.match(size)
+    if not m:
+        return None
+    v = int(m.group(3).replace(b'_', b''), 16)
+    return -v if m.group(1) == b'-' else v
+
+
+def classify_size(size):
+    """
+    a chunk-size field (the line up to the first ";") that is not 1*HEXDIG
+    -> ('unparsable', '')      no reading as a number: RFC and int() both refuse it
+       ('negative', '')        int() reads a number < 0
+       ('lenient', how)        int() reads a number >= 0 (sign / whitespace / 0x / underscore): not judged
+       ('unknown', why)
+    """
+    m = PYHEX_RE.match(size)
+    if m:
+        v = pyhex_value(size)
+        if v < 0:
+            return ('negative', '')
+        how = []
+        if m.group(1):
+            how.append('sign' + m.group(1).decode())
+        if size != size.strip(PYWS):
+            how.append('whitespace')
+        if m.group(2):
+            how.append('0x')
+        if b'_' in size:
+            how.append('underscore')
+        return ('lenient', '+'.join(how) + ('=0' if v == 0 else '=n'))
+    if any(c != 9 and not 0x20 <= c <= 0x7e for c in size):
+        return ('unknown', 'control or high byte in the chunk-size line')
+    return ('unparsable', '')
+
+
+def strict_chunks(buf, pos):
+    """
+    RFC 7230 4.1 reading of a chunked body that starts at buf[pos:]; stops at the first chunk-size line that is not
+    1*HEXDIG [BWS ";" ext].
+    -> ('more',)                                    everything so far is strictly framed, the last-chunk / trailer end
+                                                    has not arrived
+       ('complete', end)                            last-chunk and trailer section end at `end`
+       ('badsize', line_end, klass, how, line)      see classify_size; line_end = offset just after the line's CRLF
+       ('unknown', why)
+    """
+    while True:
+        e = buf.find(CRLF, pos)
+        if e < 0:
+            return ('more',)
+        line = buf[pos:e]
+        size, semi, ext = line.partition(b';')
+        if HEX_RE.match(size) or (semi and HEXBWS_RE.match(size)):
+            if any(c != 9 and not 0x20 <= c <= 0x7e for c in ext):
+                return ('unknown', 'control or high byte in a chunk extension')
+            n = int(size.strip(b' \t'), 16)
+            if n == 0:
+                q = e + 2
+                while True:
+                    e2 = buf.find(CRLF, q)
+                    if e2 < 0:
+                        return ('more',)
+                    if e2 == q:
+                        return ('complete', q + 2)
+                    name, colon, _value = buf[q:e2].partition(b':')
+                    if not colon or not TOKEN_RE.match(name) or any(c != 9 and not 0x20 <= c <= 0x7e for c in buf[q:e2]):
+                        return ('unknown', 'trailer line is not token ":" value')
+                    q = e2 + 2
+            d = e + 2
+            if len(buf) < d + n + 2:
+                return ('more',)
+            if buf[d + n:d + n + 2] != CRLF:
+                return ('unknown', 'chunk data not followed by CRLF')
+            pos = d + n + 2
+            continue
+        klass, how = classify_size(size)
+        if klass == 'unknown':
+            return ('unknown', how)
+        return ('badsize', e + 2, klass, how, line)
+
+
 def framing_verdicts(recs, notes=None):
-    """clause (v) -> list of (signature, what); `notes` collects (kind, delivery) of every judged message"""
+    """clauses (v) and (vi) -> list of (signature, what); `notes` collects (kind, delivery) of every judged message"""
     v = []
     st = {}
+
+    def dispatched(r):
+        st2 = r.get('status')
+        return bool(r['reqs']) or (st2 is not None and 200 <= st2 < 300)
+
+    def how_answered(r):
+        st2 = r.get('status')
+        return (('dispatched as a request event' if r['reqs'] else 'not rejected')
+                + (f' and answered {st2}' if st2 is not None else ''))
+
     for i, r in enumerate(recs):
         s = st.setdefault(r['sock'], {'mode': 'sync', 'buf': b''})
         if r['op'] == 'd':
@@ -327,11 +448,26 @@ def framing_verdicts(recs, notes=None):
             continue
         active = bool(r['reqs'] or r.get('wrote'))
         if s['mode'] == 'poisoned':
-            if active:
+            if s.get('escape'):
+                # negative chunk size: judged only as long as no reading of what followed contains a last-chunk
+                s['post'] += r['data']
+                if b'0' in s['post']:
+                    s['mode'] = 'lost'
+                    if notes is not None:
+                        notes.append(('chunk-size negative', f"zero digit arrives in a later read: not judged from here (impl {r['kind']})"))
+            if s['mode'] == 'lost':
+                pass
+            elif active and s.get('pending') and dispatched(r):
+                # the message with the invalid chunk-size line itself, completed by a later read
+                v.append(('malformed-dispatched(chunk-size)',
+                          f"read #{i} {r['data'][:60]!r}: request with invalid chunked framing ({s['desc']}, that line completed "
+                          f"in read #{s['at']}) was {how_answered(r)}"))
+                s.update(pending=False, escape=False)
+            elif active:
                 what = ('a request event' if r['reqs'] else 'a response') + (f" ({r['status']})" if r.get('status') else '')
                 v.append(('body-parsed-as-request',
                           f"read #{i} {r['data'][:60]!r}: bytes that follow a message with invalid framing "
-                          f"(Content-Length {s['values']}, {s['kind']}, header block completed in read #{s['at']}) "
+                          f"({s['desc']}, {s['done']} in read #{s['at']}) "
                           f"produced {what} of their own"))
                 s['mode'] = 'lost'
             elif notes is not None:
@@ -339,6 +475,12 @@ def framing_verdicts(recs, notes=None):
         elif s['mode'] == 'sync':
             s['buf'] += r['data']
             f = strict_head(s['buf'])
+            if f[0] == 'chunked':
+                g = strict_chunks(s['buf'], f[1])
+                if g[0] == 'complete':
+                    f = ('ok', g[1], 0)
+                elif g[0] in ('more', 'unknown'):
+                    f = g
             if f[0] == 'more':
                 if r['kind'] != 'wait':
                     s['mode'] = 'lost'
@@ -352,19 +494,42 @@ def framing_verdicts(recs, notes=None):
                     pass
                 else:
                     s['mode'] = 'lost'
+            elif f[0] == 'chunked':
+                _tag, line_end, klass, how, line = g
+                post = s['buf'][line_end:]
+                where = ('first chunk' if line_end - len(line) - 2 == f[1] else 'after strictly framed chunks') + ', ' + (
+                    'line ends the read' if not post else 'more bytes in the same read')
+                if klass == 'lenient':
+                    # int() reads a number >= 0 and the unchanged code carries on with it: documented leniency, not judged
+                    if notes is not None:
+                        notes.append((f'chunk-size lenient({how}) not judged', f"impl {r['kind']}"))
+                    s['mode'] = 'lost'
+                elif klass == 'negative' and b'0' in post:
+                    if notes is not None:
+                        notes.append(('chunk-size negative', f"zero digit follows in the same read: not judged (impl {r['kind']})"))
+                    s['mode'] = 'lost'
+                else:
+                    if notes is not None:
+                        notes.append((f'chunk-size {klass}', where))
+                    desc = f"chunk-size line {line[:40]!r}: {'a negative number' if klass == 'negative' else 'not a number'}; RFC 7230 4.1 chunk-size = 1*HEXDIG"
+                    s.update(mode='poisoned', desc=desc, done='that line completed', at=i, pending=True,
+                             escape=klass == 'negative', post=post)
+                    if dispatched(r):
+                        v.append(('malformed-dispatched(chunk-size)',
+                                  f"read #{i} {r['data'][:60]!r}: request with invalid chunked framing ({desc}) was {how_answered(r)}"))
+                        s.update(pending=False, escape=False)
+                    elif active:
+                        s.update(pending=False, escape=False)      # answered by a rejection: nothing further may come of it
             else:
                 _tag, hl, kind, values = f
                 values = [x.decode('latin1') for x in values]
                 if notes is not None:
                     notes.append((kind, 'header block ends the read' if len(s['buf']) == hl else 'body bytes in the same read'))
-                st2 = r.get('status')
-                if r['reqs'] or (st2 is not None and 200 <= st2 < 300):
+                if dispatched(r):
                     v.append(('malformed-dispatched(content-length)',
                               f"read #{i} {r['data'][:60]!r}: request with invalid framing (Content-Length {values}: {kind}; "
-                              f"RFC 7230 3.3.2 / 3.3.3 (4)) was "
-                              + ('dispatched as a request event' if r['reqs'] else 'not rejected')
-                              + (f' and answered {st2}' if st2 is not None else '')))
-                s.update(mode='poisoned', kind=kind, values=values, at=i)
+                              f"RFC 7230 3.3.2 / 3.3.3 (4)) was {how_answered(r)}"))
+                s.update(mode='poisoned', desc=f'Content-Length {values}, {kind}', done='header block completed', at=i)
         if r.get('disc'):
             st[r['sock']] = {'mode': 'sync', 'buf': b''}
     return v
@@ -445,6 +610,7 @@ class Tables14(c13.LexTables):
         self.exn4 = set()
         self.exnr = set()
         self.head = set()
+        self.lexc_bad = []
 
     def add_stream(self, msg):
         import httputil
@@ -506,6 +672,11 @@ class Tables14(c13.LexTables):
             for ln in lines:
                 if ln not in self.chunk:
                     self.chunk[ln] = c13.lex_chunk(ln)  # may raise Unsupported (negative size)
+                    # the lexer is a parameter of the model; what it is instantiated with must be the number written
+                    # on the line (pyhex_value: Python's int(x, 16) written down independently of the code)
+                    want = pyhex_value(ln.split(b';', 1)[0])
+                    if self.chunk[ln] != want:
+                        self.lexc_bad.append((ln, self.chunk[ln], want))
         if (fl, hb) not in self.path and (fl, hb) not in self.exnr:
             p = HttpParser(0)
             data = fl + CRLF + ((hb + CRLF2) if hb is not None else CRLF)
@@ -722,6 +893,9 @@ def evaluate(ctx, cases, shrink=True):
             continue
         for x in t.inconsistent():
             ctx.disagree(case, {'where': 'lexh-consistency', 'model': x})
+        for ln, got, want in t.lexc_bad:
+            ctx.disagree(case, {'where': 'lexc-value', 'line': repr(ln), 'impl': got, 'model': want,
+                                'what': "the code's chunk-size lexer does not return the number written on the line"})
         ok, wires = compare(ctx, case, recs, t, ans, skip, plan)
         ctx.count('wire_checked', 'set-cookie-skipped', sum(1 for x in wires if x[2] is None))
         ctx.count('wire_checked', 'compared', sum(1 for x in wires if x[2] is not None))
@@ -777,7 +951,10 @@ BAD_VERSIONS = [b'HTTP/2.0', b'HTTP/0.9', b'HTTP/1.9', b'HTTP/12.34', b'HTTP/1x1
                 b'HTTP/\\u0661.\\u0661', b'HTTP/1.', b'HTTP/.1', b'HTTP/1.1 ', b'HTTP/9.9']
 BAD_CLEN = [b'abc', b'-5', b'99999999999999999999999', b'+5', b' 5 ', b'0x10', b'5, 5', b'', b'5.0', b'1e3', b'\\x35', b'-0', b'\xd9\xa5',
             b'1x', b'5, 6', b'5;q', b'3 3']
-BAD_CHUNK = [b'zz', b'-5', b'', b'1g', b'ffffffffffffffffffffff', b' 5', b'5 ;x', b'0x5', b';', b'+3']
+BAD_CHUNK = [b'zz', b'-5', b'', b'1g', b'ffffffffffffffffffffff', b' 5', b'5 ;x', b'0x5', b';', b'+3',
+             # everything int(x, 16) takes although chunk-size = 1*HEXDIG does not: sign, whitespace, 0x, underscores
+             b'-1', b'-0', b'+0', b'-a;x', b' -2', b'-1 ', b'\t3', b'3 ', b'0X3', b'0x0', b'-0x1', b'1_0', b'0_0', b'-1_0', b'3_',
+             b'_3', b'-', b'+', b'0x', b'- 1', b'\x0b0', b'\x0c3', b'-ff']
 ESCAPES = [b'\\x', b'\\N{bad}', b'\\u12', b'\\U99999999', b'\\', b'\\xZZ', b'\\N{', b'\\777', b'\\x41', b'\\r\\n', b'\\u000d\\u000a']
 BAD_HOSTS = [b'h:abc', b'h:', b':80', b'[::1]:x', b'h:99999999999', b'h:-1', b'h:8000:9', b'', b' ', b'h:\\x']
 BAD_PATHS = [b'//a', b'/a/../b', b'/%2e%2e/x', b'http://other/x', b'*', b'/a#frag', b'/a b', b'', b'/\\', b'/%zz', b'/a?x=%',
@@ -892,7 +1069,10 @@ def m_chunk(rng, msg):
     hs.append(b'Transfer-Encoding: chunked')
     bad = rng.choice(BAD_CHUNK)
     body = rng.choice([bad + b'\r\nabc\r\n0\r\n\r\n', b'3\r\nabc\r\n' + bad + b'\r\nxy\r\n0\r\n\r\n', b'3\r\nabcXX0\r\n\r\n',
-                       b'3\r\nab\r\n0\r\n\r\n', b'0\r\nX-T v\r\n\r\n', bad + b'\r\n'])
+                       b'3\r\nab\r\n0\r\n\r\n', b'0\r\nX-T v\r\n\r\n', bad + b'\r\n',
+                       # the bad size where a last-chunk would stand: followed by an empty line / a trailer section
+                       b'3\r\nabc\r\n' + bad + b'\r\n\r\n', bad + b'\r\n\r\n', b'3;x\r\nabc\r\n' + bad + b'\r\nX-T: v\r\n\r\n',
+                       b'3\r\nabc\r\n' + bad + b'\r\n'])
     return join_msg(fl, hs, body)
 
 
@@ -1022,6 +1202,72 @@ def directed_clen(rng):
     return cases
 
 
+# directed: chunk-size lines that are not 1*HEXDIG x where they stand x what follows x how the bytes are delivered
+# (clause (vi)).  The third group is the leniency that is counted and NOT judged.
+CHUNK_UNPARSABLE = [b'zz', b'', b'1g', b'-', b'+', b'0x', b'- 1', b'3_', b'_3', b'1 2', b'--1', b'+-1', b'0x-1', b'1__2', b'x1',
+                    b'5.', b'zz;ext=1']
+CHUNK_NEGATIVE = [b'-1', b'-5', b'-a', b'-ff', b'-0x1', b' -1', b'-1 ', b'-1;ext', b'-2;a=b', b'-0001', b'-1_2', b'\t-2', b'-7',
+                  b'-1f']
+CHUNK_LENIENT = [b'+3', b' 3', b'3 ', b'\t3', b'0x3', b'0X3', b'0_3', b'+0', b'-0', b'0x0', b' 0', b'0 ', b'0_0', b'-00', b'\x0b3',
+                 b'\x0c0', b'1_0', b'+3;x', b'0x_3']
+CHUNK_HEADS = [b'POST /p HTTP/1.1\r\nHost: h\r\nTransfer-Encoding: chunked\r\n\r\n',
+               b'PUT /a/b HTTP/1.1\r\nHost: h\r\nAccept: */*\r\nTransfer-Encoding: Chunked\r\n\r\n',
+               b'POST /q HTTP/1.0\r\nConnection: keep-alive\r\nTransfer-Encoding: chunked\r\n\r\n']
+CHUNK_BEFORE = [('first', b''), ('after-chunk', b'3\r\nabc\r\n'), ('after-chunks', b'3;x=1\r\nabc\r\n2\r\nde\r\n')]
+# what follows the line's CRLF: an empty line (= what follows a last-chunk), a trailer section, data and a real
+# last-chunk, nothing
+CHUNK_AFTER = [('blank', b'\r\n'), ('trailer', b'X-T: v\r\n\r\n'), ('data+last', b'abc\r\n0\r\n\r\n'), ('nothing', b'')]
+# what the client sends afterwards, believing it is still inside its body
+CHUNK_REST = [('rest-chunks', [b'5\r\nhello\r\n0\r\n\r\n']), ('rest-request', [b'GET /evil HTTP/1.1\r\nHost: h\r\n\r\n']),
+              ('rest-blank-then-chunks', [b'\r\n', b'5\r\nhello\r\n0\r\n\r\n'])]
+
+
+def directed_chunk(rng):
+    cases = []
+
+    def add(segs, tags, beh='ok', queued=False):
+        cases.append({'kind': 'conn', 'beh': beh, 'secure': 0, 'steps': close_script(script(rng, segs, queued=queued)),
+                      'ops': ['directed'] + tags})
+
+    n = 0
+    for group, tag in ((CHUNK_UNPARSABLE, 'chunk-unparsable'), (CHUNK_NEGATIVE, 'chunk-negative'), (CHUNK_LENIENT, 'chunk-lenient')):
+        for bad in group:
+            befores = CHUNK_BEFORE if tag != 'chunk-lenient' else [CHUNK_BEFORE[len(cases) % 2]]
+            for where, before in befores:
+                if where == 'after-chunks' and rng.random() < 0.5:
+                    continue
+                for what, after in CHUNK_AFTER:
+                    n += 1
+                    head = CHUNK_HEADS[n % len(CHUNK_HEADS)]
+                    upto = head + before + bad + CRLF
+                    k = rng.randint(0, len(bad) + 1)                    # inside the line / between its CR and LF
+                    cutat = len(head) + len(before) + k
+                    ways = [('one-read', [upto + after]), ('head|body', [head, before + bad + CRLF + after]),
+                            ('line-cut', [upto[:cutat], upto[cutat:] + after])]
+                    if after:
+                        ways.append(('line|rest', [upto, after]))
+                    if tag == 'chunk-lenient':
+                        ways = [ways[0], rng.choice(ways[1:])]
+                    for how, segs in ways:
+                        add(segs, [tag, where, what, how])
+                    if what != 'data+last':
+                        # the connection goes on: the rest of what the client thinks is its body
+                        how, segs = rng.choice(ways)
+                        rname, rest = CHUNK_REST[n % len(CHUNK_REST)]
+                        add(segs + rest, [tag, where, what, how, rname])
+                    if rng.random() < 0.15:
+                        how, segs = rng.choice(ways)
+                        add(segs, [tag, where, what, how, 'variant'], beh=rng.choice(['raise', 'http403', 'badbody']),
+                            queued=rng.random() < 0.5)
+    # on a kept-alive connection after a well-formed chunked request that ended at a read boundary
+    good = b'POST /first HTTP/1.1\r\nHost: h\r\nTransfer-Encoding: chunked\r\n\r\n3\r\nabc\r\n0\r\n\r\n'
+    for bad in CHUNK_UNPARSABLE[:6] + CHUNK_NEGATIVE[:8]:
+        tag = 'chunk-unparsable' if bad in CHUNK_UNPARSABLE else 'chunk-negative'
+        add([good, CHUNK_HEADS[0] + b'3\r\nabc\r\n' + bad + CRLF2, CHUNK_REST[0][1][0]], [tag, 'keepalive', 'blank', 'one-read', 'rest-chunks'])
+        add([good, CHUNK_HEADS[0] + b'3\r\nabc\r\n' + bad + CRLF, CRLF], [tag, 'keepalive', 'blank', 'line|rest'])
+    return cases
+
+
 def cut(rng, data, k):
     if len(data) < 2 or k <= 0:
         return [data]
@@ -1050,6 +1296,7 @@ def gen_cases(ctx):
         cases.append({'kind': 'conn', 'beh': beh, 'secure': 0, 'steps': close_script(script(rng, [msg])), 'ops': ['fixed']})
         cases.append({'kind': 'conn', 'beh': beh, 'secure': 0, 'steps': close_script(script(rng, [msg], queued=True)), 'ops': ['fixed', 'queued-disconnect']})
     cases += directed_clen(rng)
+    cases += directed_chunk(rng)
     bases = list(c13.FIXED_REQUESTS) + [c13.gen_request(rng, maxbody=30) for _ in range(4 * sc)]
     for msg in bases[: (10 if sc == 1 else 40)]:
         offs = range(1, len(msg)) if len(msg) < 90 or sc > 1 else sorted(rng.sample(range(1, len(msg)), 60))
@@ -1082,6 +1329,13 @@ def gen_cases(ctx):
             # header block and body in separate reads
             segs = cut(rng, msg[:j + 4], rng.choice([0, 0, 1])) + cut(rng, msg[j + 4:], rng.choice([0, 0, 1]))
             names.append('body-later-read')
+        elif 'chunk-size' in names and 0 < j + 4 < len(msg) and rng.random() < 0.5:
+            # header block and chunked body in separate reads; sometimes the client carries on afterwards
+            segs = cut(rng, msg[:j + 4], rng.choice([0, 0, 1])) + cut(rng, msg[j + 4:], rng.choice([0, 1, 2]))
+            names.append('body-later-read')
+            if rng.random() < 0.4:
+                segs.append(rng.choice(CHUNK_REST)[1][0])
+                names.append('rest-later-read')
         steps = script(rng, segs, queued=rng.random() < 0.25)
         r = rng.random()
         if r < 0.15 and len(steps) > 1:
@@ -1141,7 +1395,16 @@ def run(ctx):
                 'different values, one list-valued field; and the lenient shapes -n, +n, repeated identical as unjudged '
                 'controls) x 3 request heads x header block and body in the same read / in separate reads / header block '
                 'cut / body cut / no body at all, also after a well-formed request on the same connection, and random '
-                'Content-Length mutations delivered with the body in a later read. Clause (v) '
+                'Content-Length mutations delivered with the body in a later read; directed: chunk-size lines that are not '
+                '1*HEXDIG (17 that are no number, 14 negative numbers, 19 that int(x,16) reads as a number >= 0 = unjudged '
+                'controls: sign, padding whitespace, 0x, underscores) as first chunk / after strictly framed chunks x followed '
+                'by an empty line / a trailer section / data and a last-chunk / nothing x one read / header block and body '
+                'in separate reads / cut inside the line or between its CR and LF / line and rest in separate reads, with '
+                'and without later reads carrying more chunks, a blank line, or a request, also after a well-formed chunked '
+                'request on the same connection; the same shapes are in the random chunk-size mutator. Clause (vi) '
+                '(malformed-dispatched(chunk-size), body-parsed-as-request) is evaluated by strict_chunks (RFC 7230 4.1) on '
+                'the delivered bytes and the request/write/close events, independent of the implementation\'s lexer and '
+                'of the model. Clause (v) '
                 '(malformed-dispatched(content-length), body-parsed-as-request) is a spec-on-impl clause: it is evaluated by '
                 'the harness (strict_head, an RFC 7230 3.3.2/3.3.3 reading of the delivered bytes) on the implementation\'s '
                 'request/write/close events only; the Lean model takes no part in it (histogram framing_oracle = judged '
@@ -1164,6 +1427,13 @@ def run(ctx):
         'identical values (rejected by the code, collapsible per RFC), any message with Transfer-Encoding, header blocks '
         'with escapes / folding / non-token names / control or high bytes, and messages whose start on the connection is '
         'not known from strict framing of what came before',
+        'clause (vi) judges chunk-size lines that are no number and negative ones; not judged: lines int(x, 16) reads as a '
+        'number >= 0 although RFC 7230 chunk-size = 1*HEXDIG does not allow them (+3, " 3", "3 ", 0x3, 1_0, -0, +0, 0x0: the '
+        'unchanged code carries on with that number and dispatches), a negative size once a "0" digit has arrived after it '
+        '(the unchanged code uses the negative number as a slice bound - the chunk is "what is in the buffer minus the last n '
+        'bytes", so what it does next depends on the read boundaries - and may then find a last-chunk and dispatch, e.g. '
+        '"-7 CRLF CRLF 0 CRLF CRLF" in one read or "-5 CRLF CRLF" followed by well-formed chunks in a later read), chunk '
+        'data not followed by CRLF, Transfer-Encoding other than the single coding chunked, Content-Encoding',
         'reads that a real server could still deliver between close(sock) and the disconnect are not explored',
     ]
     if not ctx.searching:
